@@ -211,7 +211,7 @@ def run(ctx: Ctx, tier: str) -> Result:
         f, call, keys = sa[0]
         for k, want in (("frame_type", "%s.get('frame_type', 'single_frame')"), ("log_msg", "%s.get('log_msg', None)")):
             got = ctx.expand.expand(keys[k], f) if k in keys else []
-            if got == [want % P(f, 1)]:
+            if got == [want % P(f, 1)] or (want.endswith(", None)") and got == [(want % P(f, 1))[:-len(", None)")] + ")"]):
                 res.ok("C11.SIB", {"snapshot action copies": k})
             else:
                 res.fail(Finding("C11.SIB", f.qname, k, f.loc(call), "the snapshot action does not copy %s from the arguments: %s" % (k, got)))
